@@ -31,7 +31,23 @@ IR_RUNS = {
             "thorough": [("MC", "naming", 3), ("MC", "naming_edif", 3), ("MC", "naming_mix", 3)]},
 }
 IR_LISTENERS = {"C19": "A"}
+IR_RUNS.update({
+    "C11": {"quick": [("MC", "hier11", 2), ("MC", "hier11", 10, 30), ("MC", "hier_edit", 1), ("MC", "hier_edit", 8, 20),
+                      ("MC", "hier_walk", 12, 40)],
+            "thorough": [("MC", "hier11", 4), ("MC", "hier11", 12, 600), ("MC", "hier_edit", 2),
+                         ("MC", "hier_edit", 10, 400), ("MC", "hier_walk", 16, 1500)]},
+    "C12": {"quick": [("MC", "hier12", 3), ("MC", "hier12", 12, 60)],
+            "thorough": [("MC", "hier12", 5), ("MC", "hier12", 14, 1000)]},
+})
 IR_RULE = {
+    "C11": "designs = reachable states of the build scope hier11 (valid construction steps in canonical order; BFS to the "
+           "listed depth plus TLC -simulate behaviours for deep designs) and of hier_edit (the same plus destructive "
+           "edits); per design every hierarchical query (5 functions x netlist / element / reference roots x recursive) "
+           "and a validity/uniqueness check of all plausible reference chains; distinct_nontrivial counts distinct "
+           "(design, query) pairs",
+    "C12": "designs = reachable states of the build scope hier12; per design every hierarchical wire, cable, pin and "
+           "port is a start point for selection ALL, every pin for INSIDE/OUTSIDE, every wire for get_hpins; "
+           "distinct_nontrivial counts distinct (design, start point, selection) triples",
     "C19": "every (reachable model state, candidate call) pair executed with a MirrorListener registered (a "
            "CallbackListener that only replays announcements); every 4th state additionally under the listener "
            "configurations none / mirror+passive / passive+mirror; distinct_nontrivial counts distinct (pre-state, "
@@ -115,12 +131,22 @@ def ir_history(pid, tier, seed, replay=None, runs=None, strict=True):
     try:
         if replay is not None:
             rp = replay["replay"]
-            jobs = [(rp.get("module", "MC"), rp.get("scope", "replay"), 0,
-                     None, rp["init"], [(rp["hist"], [rp["call"]] if rp.get("call") else [])])]
+            if rp.get("chain"):
+                jobs = [(rp.get("module", "MC"), rp.get("scope", "replay"), 0, {"walk": True, "walkq": True,
+                         "distinct": 0, "states": 0, "lookup": rp.get("lookup", [])}, rp["init"],
+                         [(rp["hist"] + ([rp["call"]] if rp.get("call") else []), [])])]
+            else:
+                jobs = [(rp.get("module", "MC"), rp.get("scope", "replay"), 0,
+                         None, rp["init"], [(rp["hist"], [rp["call"]] if rp.get("call") else [])])]
         else:
             jobs = []
-            for module, scope, depth in runs:
-                gen, init, groups = irflow.generate(scope, depth, module=module)
+            for run in runs:
+                module, scope, depth = run[:3]
+                sim = run[3] if len(run) > 3 else None
+                gen, init, groups = irflow.generate(scope, depth, module=module, sim=sim, seed=seed)
+                if sim:
+                    cov["exhaustive"] = False
+                    scope = scope + "~sim"
                 if not gen["ok"]:
                     res.machinery.append("TLC model checking of scope %s failed: %s" % (scope, gen["errors"][:8]))
                     if any("MODEL-VIOLATION" in e or "Invariant" in e for e in gen["errors"]):
@@ -128,9 +154,11 @@ def ir_history(pid, tier, seed, replay=None, runs=None, strict=True):
                     continue
                 jobs.append((module, scope, depth, gen, init, groups))
         for module, scope, depth, gen, init, groups in jobs:
-            d = os.path.join(out, scope)
+            d = os.path.join(out, scope + str(depth))
+            scope = scope.replace("~sim", "")
             shards, stats = irflow.replay(init, groups, d, lookup=(gen or {}).get("lookup", rp.get("lookup", []) if replay else []),
-                                          listeners=IR_LISTENERS.get(pid, ""))
+                                          listeners=IR_LISTENERS.get(pid, ""),
+                                          chain=("observe" if gen and gen.get("walkq") else bool(gen and gen.get("walk"))))
             tot = {k: sum(s[k] for s in stats) for k in
                    ("groups", "calls", "ok", "refused", "changed_refused", "unbuildable", "records",
                     "nontrivial_refused", "announcements", "transparency_compared")}
@@ -146,24 +174,26 @@ def ir_history(pid, tier, seed, replay=None, runs=None, strict=True):
                 for k, clause in v["fails"]:
                     if not clause.startswith(pid):
                         continue
-                    rec = irflow.read_record(v["path"], k)
-                    header = rec if rec["t"] == "reset" else irflow.read_record(v["path"], rec["pre"])
-                    sig = _detail(_sig_of(rec, header), clause, rec, header)
+                    header, hist, rec = irflow.history_of(v["path"], k)
+                    prerec = rec if rec["t"] == "reset" else irflow.read_record(v["path"], rec["pre"])
+                    sig = _detail(_sig_of(rec, {"h": hist}), clause, rec, prerec)
                     res.violations.append({
                         "clause": clause, "signature": sig,
-                        "summary": "after %d calls: %s -> %s" % (len(header["h"]), json.dumps(rec.get("call")),
+                        "summary": "after %d calls: %s -> %s" % (len(hist), json.dumps(rec.get("call"))[:300],
                                                                   rec.get("out")),
-                        "replay": {"module": module, "scope": scope, "init": init, "lookup": (gen or {}).get("lookup", []), "hist": header["h"],
+                        "replay": {"module": module, "scope": scope, "init": init, "lookup": (gen or {}).get("lookup", []),
+                                   "hist": hist, "chain": bool(gen and gen.get("walk")) or bool(replay and rp.get("chain")),
                                    "call": rec.get("call"), "observed_out": rec.get("out"),
-                                   "exception": rec.get("exc"), "pre": header["state"],
+                                   "exception": rec.get("exc"), "pre": prerec.get("state", "see history"),
                                    "post": rec.get("state", "same as pre"),
-                                   "announcements": rec.get("ann"), "mirror": rec.get("mirror")}})
+                                   "announcements": rec.get("ann"), "mirror": rec.get("mirror"),
+                                   "returned": rec.get("ret"), "info": rec.get("info")}})
                 for k, what in v["drifts"]:
                     nd += 1
                     if len(res.drift) < 10:
                         rec = irflow.read_record(v["path"], k)
                         res.drift.append("scope %s: %s differs from the model for %s (impl: %s)" %
-                                         (scope, what, json.dumps(rec.get("call")), rec.get("out")))
+                                         (scope, what, json.dumps(rec.get("call"))[:300], rec.get("out")))
             cov["drift_transitions"] += nd
             cov["traces_validated_against_impl"] += tot["records"]
             cov["evaluations"] += tot["calls"]
@@ -192,4 +222,5 @@ def ir_history(pid, tier, seed, replay=None, runs=None, strict=True):
     return res
 
 
-HANDLERS = {"C01": ir_history, "C02": ir_history, "C14": ir_history, "C10": ir_history, "C19": ir_history}
+HANDLERS = {"C01": ir_history, "C02": ir_history, "C14": ir_history, "C10": ir_history, "C19": ir_history, "C11": ir_history,
+            "C12": ir_history}
